@@ -233,13 +233,21 @@ class Resolver(object):
         for c in mro:
             br = BACKREFS.get((c.qname, attr))
             if br is not None:
-                if owner is not None:
-                    out.add(owner)
-                elif br == 'OUTER':
-                    if cls.outer is not None:
+                if br == 'OUTER':
+                    if owner is not None:
+                        out.add(owner)
+                    elif cls.outer is not None:
                         out.add(cls.outer)
                 else:
-                    out.add(p.cls(br))
+                    dflt = p.cls(br)
+                    # the owner must be an instance of the declared class (a reader created by an NDEF object still
+                    # refers to the tag, not to the NDEF object)
+                    if owner is not None and dflt in p.mro(owner):
+                        out.add(owner)
+                    elif owner is not None and owner.outer is not None and dflt in p.mro(owner.outer):
+                        out.add(owner.outer)
+                    else:
+                        out.add(dflt)
                 done = True
                 break
             ent = ATTR_TYPES.get((c.qname, attr))
@@ -326,6 +334,7 @@ class Resolver(object):
     def callees(self, func, call, ctx, record=True):
         """Resolve a Call node inside `func` analysed under `ctx`."""
         p = self.p
+        self._cur_ctx = ctx
         fn = call.func
         out = []
         # super(X, self).m(...)  /  super().m(...)
@@ -397,6 +406,9 @@ class Resolver(object):
             return self._done(func, call, out, record)
         return self._done(func, call, out, record)
 
+    def _ctx_of(self, func, out, t):
+        return self._cur_ctx
+
     def _eval_classes(self, func, arg):
         """Classes named by eval(D[k] + 'SUFFIX') where D is a dict literal assigned in the function."""
         out = []
@@ -465,6 +477,15 @@ class Resolver(object):
         return []
 
     def _done(self, func, call, out, record):
+        # an object that keeps a back reference to its first constructor argument (memory readers: _tag) is owned by that
+        # argument's class, not by the object that happened to construct it
+        for t in out:
+            if t.via == 'init' and t.ctx is not None and t.ctx.root is not None and call.args:
+                if any((c.qname, a) in BACKREFS for c in self.p.mro(t.ctx.root) if isinstance(c, ClassInfo) for a in ('_tag',)) \
+                        and not t.ctx.root.qname.endswith('.NDEF'):
+                    ats = sorted(self.types_of(func, call.args[0], self._ctx_of(func, out, t)), key=lambda c: c.qname)
+                    if ats:
+                        t.ctx = Ctx(t.ctx.root, ats[0])
         if record:
             if out:
                 self.resolved_count += 1
